@@ -69,7 +69,7 @@ class LogicDense(torch.nn.Module):
                 )
             else:
                 raise ValueError(weight_init)
-        elif self.parametrization in ["walsh", "anf"]:
+        elif self.parametrization == "walsh":
             if weight_init == "residual":
                 # chose randomly from walsh_coefficients, but prefer id=10
                 walsh_coefficients_tensor = torch.tensor(list(WALSH_COEFFICIENTS.values()), device=device)
@@ -172,9 +172,13 @@ class LogicDense(torch.nn.Module):
                 elif self.forward_sampling == "hard":
                     x = hard_raw(self.weight, tau=self.temperature)
                 elif self.forward_sampling == "gumbel_soft":
+                    self._check_gumbel_temperature()
                     x = gumbel_softmax(self.weight, tau=self.temperature, hard=False)
                 elif self.forward_sampling == "gumbel_hard":
+                    self._check_gumbel_temperature()
                     x = gumbel_softmax(self.weight, tau=self.temperature, hard=True)
+                else:
+                    raise ValueError(self.forward_sampling)
                 x = bin_op_s(a, b, x)
             else:
                 weights = torch.nn.functional.one_hot(self.weight.argmax(-1), 16).to(
@@ -203,6 +207,10 @@ class LogicDense(torch.nn.Module):
             else:
                 x = (x > 0).to(torch.float32)
         return x
+
+    def _check_gumbel_temperature(self):
+        if self.temperature <= 0:
+            raise ValueError("Temperature must be positive")
 
     def forward_cuda(self, x):
         if self.training:
